@@ -349,6 +349,37 @@ def run(chk):
                 chk.fail("file-backed-caps-differ", f"hand-filled process tensor (ranks {info['ranks']}, transforms {info['transforms']}): {bad} of {where} differ from "
                          "those of the in-memory process tensor holding the same tensors (both after compute_caps())", info)
 
+        # ---- large bond dimensions (above 127, 255 and, in the thorough tier, beyond 32767 entries per leg is out of reach; 130 / 200 /
+        # 300): lengths, bond dimensions, tensors and caps come back identical ----------------------------------------------------
+        for j in range(3 if thorough else 1):
+            d = 1 if j % 2 == 0 else 2
+            bonds = [1] + rng.sample([130, 200, 300, 128, 257], 2) + [1]
+            g_ = np.random.default_rng(chk.seed + j)
+            big = ptm.SimpleProcessTensor(d, dt=0.1, name="large bonds")
+            for k_ in range(3):
+                big.set_mpo_tensor(k_, g_.integers(-2, 3, (bonds[k_], bonds[k_ + 1], d * d)).astype(complex))
+            for k_ in range(4):
+                big.set_cap_tensor(k_, g_.integers(-2, 3, (bonds[k_],)).astype(complex))
+            fn_ = os.path.join(tmp, f"big_{j}.hdf5")
+            info = {"kind": "large-bonds", "d": d, "bonds": bonds}
+            chk.search_cases += 1
+            chk.count("large_bonds")
+            chk.case(info, ("big", d, tuple(bonds)))
+            try:
+                big.export(fn_, overwrite=True)
+                for kind in ("file", "simple"):
+                    back_ = ptm.import_process_tensor(fn_, kind)
+                    ok_ = (len(back_) == 3 and list(back_.get_bond_dimensions()) == list(big.get_bond_dimensions())
+                           and all(np.array_equal(back_.get_mpo_tensor(k_), big.get_mpo_tensor(k_)) for k_ in range(3))
+                           and all(np.array_equal(back_.get_cap_tensor(k_), big.get_cap_tensor(k_)) for k_ in range(4)))
+                    if kind == "file":
+                        back_.close()
+                    if not ok_:
+                        chk.fail("roundtrip-differs", f"a process tensor with bond dimensions {bonds} comes back different from import_process_tensor(..., '{kind}')", dict(info, import_type=kind))
+                        break
+            except Exception as ex:
+                chk.fail("imported-raises", f"export / import of a process tensor with bond dimensions {bonds} raises {ex!r}", info)
+
         # ---- file-backed PT-TEMPO vs in-memory (same float operations) ----------
         sx_, sy_, sz_ = (oqupy.operators.sigma(a) for a in "xyz")
         for j in list(range(6 if thorough else 3)) + [100, 101]:
